@@ -1,0 +1,21 @@
+//go:build verif
+
+package conn
+
+// Accessors for the external verification harness (build tag "verif").
+
+// VerifSendNonce returns a copy of the send nonce, read under the lock that
+// guards it.
+func (sc *SecretConnection) VerifSendNonce() [aeadNonceSize]byte {
+	sc.sendMtx.Lock()
+	defer sc.sendMtx.Unlock()
+	return *sc.sendNonce
+}
+
+// VerifRecvNonce returns a copy of the receive nonce, read under the lock that
+// guards it.  It blocks while a Read is in progress.
+func (sc *SecretConnection) VerifRecvNonce() [aeadNonceSize]byte {
+	sc.recvMtx.Lock()
+	defer sc.recvMtx.Unlock()
+	return *sc.recvNonce
+}
